@@ -214,17 +214,19 @@ theorem resolve_unknown {w : World} {attrs : List Attr} {start : Nat} :
         obtain ⟨rfl, rfl⟩ := h
         exact ⟨List.mem_cons_self, hn1, hn2⟩
 
-/-- **On a connected pair `convert_to` finds a method for every step.**  For every history of executions of
-registering sites (from the empty registry), every start object that is an instance of the base class and every
+/-- **On a connected pair `convert_to` finds a method for every step.**  From any registry in which every link has a
+base-class method (the empty one: `registered_empty`; the built-in orientation graph: `builtin_links_have_methods`), for
+every history of executions of registering sites, every start object that is an instance of the base class and every
 goal name: if the routing returns a path, each consecutive pair of it resolves (`hasattr(start, a_to_b)` or
 `hasattr(start, b_to_a)`). -/
-theorem convert_resolves (w : World) (root fuel fuel' : Nat) (hist : List (List SiteOp × Binding)) (st : State)
-    (hs : ∀ e ∈ hist, registersRoot e.1 = true) (hrun : runSites w root fuel {} hist = some st)
+theorem convert_resolves (w : World) (root fuel fuel' : Nat) (st0 : State) (h0 : Registered w root st0) (hd0 : DirInv st0.g)
+    (hist : List (List SiteOp × Binding)) (st : State)
+    (hs : ∀ e ∈ hist, registersRoot e.1 = true) (hrun : runSites w root fuel st0 hist = some st)
     (start goal : Nat) (hroot : root ∈ w.mro (w.cls start)) (p : List Nat)
     (hp : Reg.path w.nm fuel' st.g start goal = .ok p) :
     ∀ a b, (a, b) ∈ p.zip p.tail →
       (getattr w st.attrs start (w.nm a) (w.nm b)).isSome ∨ (getattr w st.attrs start (w.nm b) (w.nm a)).isSome := by
-  obtain ⟨hr, hd⟩ := registered_run hs (registered_empty w root).1 (registered_empty w root).2 hrun
+  obtain ⟨hr, hd⟩ := registered_run hs h0 hd0 hrun
   obtain ⟨_, _, hc⟩ := named_path_valid_chain hd fuel' start goal p hp
   intro a b hab
   have hnb : b ∈ (get st.g a).nbrs := isChain_zip_tail hc a b hab
@@ -235,8 +237,9 @@ theorem convert_resolves (w : World) (root fuel fuel' : Nat) (hist : List (List 
 /-- … hence `convert_to` never raises `Unknown transformation` (it returns the resolved chain, or reports that
 the goal name is not connected, or — excluded for forests by `forest_routes_exact` — fails to walk) -/
 theorem convert_never_unknown_transformation (w : World) (root fuel fuel' : Nat)
+    (st0 : State) (h0 : Registered w root st0) (hd0 : DirInv st0.g)
     (hist : List (List SiteOp × Binding)) (st : State)
-    (hs : ∀ e ∈ hist, registersRoot e.1 = true) (hrun : runSites w root fuel {} hist = some st)
+    (hs : ∀ e ∈ hist, registersRoot e.1 = true) (hrun : runSites w root fuel st0 hist = some st)
     (start goal : Nat) (hroot : root ∈ w.mro (w.cls start)) (a b : Nat) :
     convert w fuel' st start goal ≠ .unknownTransformation a b := by
   intro h
@@ -244,7 +247,7 @@ theorem convert_never_unknown_transformation (w : World) (root fuel fuel' : Nat)
   split at h
   · next p hp =>
     obtain ⟨hmem, h1, h2⟩ := resolve_unknown h
-    rcases convert_resolves w root fuel fuel' hist st hs hrun start goal hroot p hp a b hmem with hh | hh
+    rcases convert_resolves w root fuel fuel' st0 h0 hd0 hist st hs hrun start goal hroot p hp a b hmem with hh | hh
     · rw [h1] at hh; cases hh
     · rw [h2] at hh; cases hh
   all_goals cases h
